@@ -100,10 +100,17 @@ def run(tier):
         ck.case(sc.name)
     # ---- the shipped downloader against the loopback HTTP server
     bd = os.path.join(common.BUILD, "plain")
-    nz = 8 if tier == "quick" else 80
+    nz = 12 if tier == "quick" else 80
     zscripts = {}
     for i in range(nz):
         A, B, kind = make_pair(rnd, big=(i % 3 == 2))
+        special = {6: "ladder", 7: "norange", 8: "norange-old", 9: "norange-fail", 10: "ladder1", 11: "norange-equalB"}.get(i, "")
+        if special:
+            # deterministic: twelve data chunks of which every second one is in A (six separate missing extents)
+            cB = [b""] + [corpus.text(rnd, 400 + 70 * k) for k in range(12)]
+            cA = [b""] + [cB[k] for k in range(1, 13) if k % 2 == 0]
+            kw = dict(comp_type=(0 if i % 2 else 2), hash_type=1, chunk_hash_type=3, level=3)
+            A = ref.build_file(cA, **kw)[0]; B = ref.build_file(cB, **kw)[0]; kind = "alternating"
         hB = ref.parse_header(B)
         if hB.hash_type != 1:
             B = ref.rebuild_from_parse(hB, B)            # (keep as is; zckdl handles SHA-1/SHA-256 overall types)
@@ -122,14 +129,35 @@ def run(tier):
         if A is not None: open(os.path.join(cwd, "A.zck"), "wb").write(A)
         if tk != "empty": open(os.path.join(cwd, "B.zck"), "wb").write(T)
         mr = rnd.choice([0, 1, 2, 7]); piece = rnd.choice([0, 1000, 16384])
-        srv = server.start(root, max_ranges=mr, piece=piece)
+        norange = special.startswith("norange"); extra = ()
+        if special.startswith("ladder"):
+            mr = 2 if special == "ladder" else 1       # the server answers 200 to requests with more ranges: zckdl must reduce and retry
+            tk, T = "empty", b""
+            if os.path.exists(os.path.join(cwd, "B.zck")): os.remove(os.path.join(cwd, "B.zck"))
+        if norange:
+            mr = 0
+            tk, T = {"norange": ("empty", b""), "norange-old": ("old", A), "norange-fail": ("empty", b""), "norange-equalB": ("equalB", B)}[special]
+            if tk == "empty":
+                if os.path.exists(os.path.join(cwd, "B.zck")): os.remove(os.path.join(cwd, "B.zck"))
+            else:
+                open(os.path.join(cwd, "B.zck"), "wb").write(T)
+            if special == "norange-fail":
+                extra = ("--fail-no-ranges",)
+        srv = server.start(root, max_ranges=mr, piece=piece, no_ranges=norange)
         url = "http://127.0.0.1:%d/B.zck" % srv.server_address[1]
-        st = zckdltier.run_zckdl(bd, cwd, url, src="A.zck" if A is not None else None)
+        st = zckdltier.run_zckdl(bd, cwd, url, src="A.zck" if A is not None else None, extra=extra)
         after = open(os.path.join(cwd, "B.zck"), "rb").read() if os.path.exists(os.path.join(cwd, "B.zck")) else b""
-        ev = zckdltier.tool_event(B, hB, A, T if tk != "empty" else b"", after, server.requested_ranges(srv.log, "B.zck"), st)
+        ev = zckdltier.tool_event(B, hB, A, T if tk != "empty" else b"", after, server.requested_ranges(srv.log, "B.zck"), st, full=norange)
+        if special.startswith("ladder"):
+            over = [e for e in srv.log if e["range"] and len(e["range"].split(",")) > mr]
+            ck.extra.setdefault("zckdl_over_limit_requests_refused", []).append(len(over))
+            if not over:
+                raise Broken("the range-limit scenario did not make zckdl exceed the server's limit (vacuous)")
+        if norange:
+            ck.extra.setdefault("zckdl_full_download_status", []).append([special, st])
         srv.shutdown(); srv.server_close()
         cid = "zckdl%d" % i
-        name = "zckdl: %s pair, target %s, server max ranges %d, piece %d" % (kind, tk, mr, piece)
+        name = "zckdl: %s pair, target %s, server %s, piece %d%s" % (kind, tk, "without range support" if norange else "max ranges %d" % mr, piece, " " + " ".join(extra) if extra else "")
         trace.append({"op": "begin", "name": name}); owner.append(cid)
         if st == "Hang" or (isinstance(st, int) and (st < 0 or st in (134, 139))):
             trace.append({"op": "Hang" if st == "Hang" else "Crash", "tool": "zckdl", "status": str(st)}); owner.append(cid)
